@@ -29,6 +29,11 @@ import DadiVerif.Model.DataDict
                                                order given, draws = the recorded draws still unused, choice = the recorded chunk choice
    bsvproj want popIds                      -> ok proj           the generated `bsvProjections`
    sstate proj mask                         -> ok mask | err dim  mask of a spectrum with mask `mask` after `fs.S()` (generated `sBody` run by `sRun`)
+   foldmask proj mask                       -> ok mask | err dim  mask of `fs.fold()` for a spectrum with mask `mask` (`foldMask`)
+   poltable                                 -> ok og:a1:a2:pol:der;…   the generated decision table of count_data_dict (og, der: - = none)
+   polrow out a1 a2                         -> ok pol der         the model's decision for one SNP with arbitrary allele codes (`Snp.polRow`)
+   projstats sqrtC m n cols                 -> ok S W thetaL tajvar D | S W thetaL tajvar D   statistics of the spectrum projected from n to m:
+                                               by direct counting on the full columns (`sProj`, …) | from the projected spectrum
    projw m n i j / chunkidx size p / shapes -> ok … -/
 namespace DadiVerif.Driver.DataDict
 open DadiVerif DadiVerif.Proto DadiVerif.DataDict DadiVerif.Gen.DD
@@ -233,6 +238,28 @@ def handle (toks : List String) : Option String :=
       let proj ← parseNatList proj; let mask ← parseND mask
       if mask.shape ≠ shapeOf proj then some "err dim"
       else some ("ok " ++ showMask proj (sRun proj (fun _ => 0) (fun idx => mask.get idx != 0)).live)
+  | ["foldmask", proj, mask] => do
+      let proj ← parseNatList proj; let mask ← parseND mask
+      if mask.shape ≠ shapeOf proj then some "err dim"
+      else some ("ok " ++ showMask proj (foldMask proj fun idx => mask.get idx != 0))
+  | ["poltable"] =>
+      let so (o : Option Nat) : String := match o with | none => "-" | some x => toString x
+      some ("ok " ++ ";".intercalate (polTable.map fun row =>
+        ":".intercalate [so row.1.1, toString row.1.2.1, toString row.1.2.2, (if row.2.1 then "1" else "0"), so row.2.2]))
+  | ["polrow", out, a1, a2] => do
+      let out ← parseOptNat out; let a1 ← a1.toNat?; let a2 ← a2.toNat?
+      let s : Snp := { chrom := 0, pos := 0, info := 0, nseg := 2, a1 := a1, a2 := a2, out := out, calls := [] }
+      some ("ok " ++ (if s.polarized then "1" else "0") ++ " " ++ (match s.derivedSel with | none => "-" | some k => toString k))
+  | ["projstats", sq, m, n, cols] => do
+      let sq ← parseRat sq; let m ← m.toNat?; let n ← n.toNat?; let cols ← parseCols cols
+      if cols.any (·.length ≠ n) then some "err dim"
+      else if m > n || m < 2 then some "err proj"
+      else
+        let f := fn1 true m (cols.map fun c => snpOfCols [c])
+        some ("ok " ++ " ".intercalate [showRat (sProj m n cols), showRat (wattersonProj m n cols), showRat (thetaLProj m n cols),
+                showRat (tajVarProj m n cols), showRat (tajimaProj sq m n cols)]
+              ++ " | " ++ " ".intercalate [showRat (sOf m f), showRat (wattersonOf m f), showRat (thetaLOf m f), showRat (tajVarOf m f),
+                showRat (tajimaOf sq m f)])
   | ["shapes13"] =>
       some ("ok " ++ " ".intercalate ([accumulateShapeOk, foldIffUnpolarized, fromDataDictShapeOk, sShapeOk, keyParseShapeOk,
         chunkLoopShapeOk, chunkRebuildShapeOk, bootstrapShapeOk, foldMaskShapeOk, statsSelfWrites.isEmpty, bsvShapeOk].map fun (b : Bool) => if b then "1" else "0"))
